@@ -43,7 +43,10 @@ func init() {
 			"formatted under 4 configurations (CLI default via FormatFile; random indent 0-8/blank cap/rule table; compact+strip; strip or compact keeping comments). " +
 			"Coverage classes are derived from the oracle's own reading of the INPUT: C|mode|comment position|same-line/own-line|kind of next token|blank line before|blank line after; " +
 			"K|mode|node kind present (each literal spelling class, bracket kind, prefix, longhand prefix form with arity)|outcome changed/unchanged; L|mode|layout feature|outcome; " +
-			"G|indent|blank cap|rules|mode|source kind; R|source kind|reader error class for rejected texts. Empty texts and oracle-inconclusive cases add no class.",
+			"G|indent|blank cap|rules|mode|source kind; R|source kind|reader error class for rejected texts. Empty texts and oracle-inconclusive cases add no class. " +
+			"Appended behind these (128 / 3 000 cases, c16_window.go): an accepted text that receives ONE lexeme sized relative to the 128 KiB scanner window every reader scans through " +
+			"(string, raw string, symbol, keyword, qualified symbol, float, comment, end-of-input comment, hash-bang line, whitespace run; W-1/W/W+1 enumerated per kind and placement, then W-9..W+5, 2W, 129-300 KB, W-4000..W-10), " +
+			"judged with the sliding-window reader as THE reader for input and output; classes W|kind|length class|placement|mode|accepted/rejected.",
 		Assumptions: []string{
 			"the strict reader (rdparser.New(...).ParseProgram) defines which texts are accepted and what tree a text reads to",
 			"the public lexer's token stream is the ground truth for literal spellings, bracket characters and comment tokens (byte offsets are recomputed by the oracle, Source.Pos is not trusted)",
@@ -52,17 +55,25 @@ func init() {
 			"comment text must survive byte for byte (the formatter documents no trimming); blank lines are only judged through idempotence",
 			"with StripComments set only trees, spellings and idempotence are judged; Compact without StripComments is judged like default mode but reported under keys containing 'compact-keep'",
 			"IndentSize in 0..8 and MaxBlankLines in 0..10 are the configurations meant by 'any indentation rules'; negative values are not exercised",
+			"'the reader' of the accept/reject clause is the reader the runtime loads source with (rdparser.NewReader: rdparser.New over token.NewScanner's documented 128 KiB sliding window); the main workload reads through a scanner sized to the text because its lexemes are far below the window, the window family reads input and output through the sliding window and assumes nothing about which lengths it accepts",
 		},
 		Cases: func(tier string) int {
-			if tier == "thorough" {
-				return 2_400_000
-			}
-			return 60_000
+			return c16MainCases(tier) + c16WindowCases(tier)
 		},
 		Init:        c16Init,
 		Run:         c16Run,
+		Driver:      c16Driver,
 		MinDistinct: func(tier string) int { return 2300 },
 	})
+}
+
+// c16MainCases: the case indices below it are the main workload; the window
+// family (c16_window.go) is appended behind them so that no existing case moves.
+func c16MainCases(tier string) int {
+	if tier == "thorough" {
+		return 2_400_000
+	}
+	return 60_000
 }
 
 func c16Init(w *fw.W) {
@@ -314,6 +325,10 @@ func c16Cover(w *fw.W, kind, mode string, cfg *formatter.Config, src []byte, an 
 }
 
 func c16Run(w *fw.W, idx int) {
+	if base := c16MainCases(w.Tier); idx >= base {
+		c16RunWindow(w, idx-base)
+		return
+	}
 	st, _ := w.State.(*c16State)
 	r := w.RNG(idx, "main")
 	var src []byte
@@ -419,40 +434,7 @@ func c16Run(w *fw.W, idx int) {
 			finds = append(finds, *v.Sec)
 		}
 		for _, fv := range finds {
-			// shrink (at most twice per pre-shrink key and worker: shrinking costs
-			// hundreds of formatter runs), then re-key from the shrunk input
-			if st != nil {
-				pk := c16CollapseKey(fv.Key)
-				if st.Shrunk[pk] >= 2 {
-					w.Count("violations_not_minimised_again", 1)
-					continue
-				}
-				st.Shrunk[pk]++
-			}
-			ssrc, sv := c16Shrink(src, rn.cfg, rn.viaFile, fv)
-			key := c16CollapseKey(sv.Key)
-			if ri != 0 {
-				// Is the finding specific to this configuration?  If the minimised
-				// input fails the same way under the CLI's DefaultConfig, report it
-				// under the default-mode key (one defect, one key).
-				var an2 *c16Analysis
-				dv := c16Judge(ssrc, formatter.DefaultConfig(), rn.viaFile, &an2)
-				dmode := c16ModeOf(rn.cfg)
-				switch {
-				case dv.Family == sv.Family && strings.TrimPrefix(dv.Key, dv.Family+":"+c16ModeDefault) == strings.TrimPrefix(sv.Key, sv.Family+":"+dmode):
-					key = c16CollapseKey(dv.Key)
-				case dmode == c16ModeDefault:
-					key = strings.Replace(key, ":"+c16ModeDefault, ":custom-config", 1)
-				}
-			}
-			if reported[key] {
-				continue
-			}
-			reported[key] = true
-			detail := fmt.Sprintf("config: %s (via %s)\nsource kind: %s %v\n--- minimised input (%d bytes) ---\n%s\n--- formatted ---\n%s\n%s\n--- original input (%d bytes) ---\n%s",
-				c16CfgString(rn.cfg), map[bool]string{true: "FormatFile", false: "Format"}[rn.viaFile], kind, muts,
-				len(ssrc), c16Vis(ssrc), c16Vis(sv.Out), sv.Detail, len(src), c16Vis(src))
-			w.Violation(key, sv.Summary+fmt.Sprintf("  [input %q]", c16Short(string(ssrc))), detail)
+			c16Report(w, st, src, rn.cfg, rn.viaFile, ri == 0, fv, kind, muts, reported)
 		}
 	}
 	if w.WantSample() && an != nil && !an.Rejected && len(an.Tree.Comments) > 2 && len(src) < 400 {
@@ -462,6 +444,45 @@ func c16Run(w *fw.W, idx int) {
 	if w.Verbose {
 		w.Logf("kind=%s muts=%v\n--- input ---\n%s", kind, muts, c16Vis(src))
 	}
+}
+
+// c16Report minimises one finding and reports it under the key of the
+// minimised input (first: the run was the CLI default configuration).
+func c16Report(w *fw.W, st *c16State, src []byte, cfg *formatter.Config, viaFile, first bool, fv c16Verdict, kind string, muts []string, reported map[string]bool) {
+	// shrink (at most twice per pre-shrink key and worker: shrinking costs
+	// hundreds of formatter runs), then re-key from the shrunk input
+	if st != nil {
+		pk := c16CollapseKey(fv.Key)
+		if st.Shrunk[pk] >= 2 {
+			w.Count("violations_not_minimised_again", 1)
+			return
+		}
+		st.Shrunk[pk]++
+	}
+	ssrc, sv := c16Shrink(src, cfg, viaFile, fv)
+	key := c16CollapseKey(sv.Key)
+	if !first {
+		// Is the finding specific to this configuration?  If the minimised
+		// input fails the same way under the CLI's DefaultConfig, report it
+		// under the default-mode key (one defect, one key).
+		var an2 *c16Analysis
+		dv := c16Judge(ssrc, formatter.DefaultConfig(), viaFile, &an2)
+		dmode := c16ModeOf(cfg)
+		switch {
+		case dv.Family == sv.Family && strings.TrimPrefix(dv.Key, dv.Family+":"+c16ModeDefault) == strings.TrimPrefix(sv.Key, sv.Family+":"+dmode):
+			key = c16CollapseKey(dv.Key)
+		case dmode == c16ModeDefault:
+			key = strings.Replace(key, ":"+c16ModeDefault, ":custom-config", 1)
+		}
+	}
+	if reported[key] {
+		return
+	}
+	reported[key] = true
+	detail := fmt.Sprintf("config: %s (via %s)\nsource kind: %s %v\n--- minimised input (%d bytes) ---\n%s\n--- formatted ---\n%s\n%s\n--- original input (%d bytes) ---\n%s",
+		c16CfgString(cfg), map[bool]string{true: "FormatFile", false: "Format"}[viaFile], kind, muts,
+		len(ssrc), c16Vis(ssrc), c16Vis(sv.Out), sv.Detail, len(src), c16Vis(src))
+	w.Violation(key, sv.Summary+fmt.Sprintf("  [input %q]", c16Short(string(ssrc))), detail)
 }
 
 // c16CollapseKey: the compact printer has no code at all for comments below
